@@ -8,6 +8,7 @@
 namespace cppcms { namespace utf8 {
 template uint32_t next<char const *>(char const *&, char const *, bool, bool);
 template bool validate<char const *>(char const *, char const *, size_t &, bool);
+template bool validate<char const *>(char const *, char const *, bool);
 } }
 unsigned c14_booster_decode(char const *&p, char const *e)
 {
